@@ -6,6 +6,7 @@ package c05
 
 import (
 	"bytes"
+	"compress/zlib"
 	"fmt"
 	"io"
 	"os"
@@ -25,6 +26,7 @@ import (
 	"seehuhn.de/go/pdf/reader"
 	"verif/sim/core"
 	"verif/sim/props/c04"
+	"verif/sim/props/c11"
 	"verif/sim/richdoc"
 	"verif/sim/simdisk"
 	"verif/sim/tape"
@@ -239,12 +241,65 @@ func corrupt(t *tape.Tape, img []byte, n int) ([]byte, []string) {
 	return out, kinds
 }
 
+// hostileXRef assembles a small file whose cross-reference stream declares
+// many /Index subsections over a body of zeros that compresses to almost
+// nothing: each subsection is modest, their sum is not.
+func hostileXRef(t *tape.Tape) ([]byte, string) {
+	var b bytes.Buffer
+	var offs [4]int
+	b.WriteString("%PDF-1.7\n%\xe2\xe3\xcf\xd3\n")
+	offs[1] = b.Len()
+	b.WriteString("1 0 obj\n<< /Type /Catalog /Pages 2 0 R >>\nendobj\n")
+	offs[2] = b.Len()
+	b.WriteString("2 0 obj\n<< /Type /Pages /Kids [] /Count 0 >>\nendobj\n")
+	offs[3] = b.Len()
+	nsub := tape.Pick(t, "hx.nsub", 1, 2, 16, 128, 512)
+	subSize := tape.Pick(t, "hx.subsize", 100, 1000, 8192, 65536)
+	overlap := t.Bool("hx.overlap", 1, 4)
+	data := []byte{0, 0, 0, 255}
+	for i := 1; i <= 3; i++ {
+		data = append(data, 1, byte(offs[i]>>8), byte(offs[i]), 0)
+	}
+	index := "0 4"
+	next := 1000
+	for i := 0; i < nsub; i++ {
+		index += fmt.Sprintf(" %d %d", next, subSize)
+		if !overlap {
+			next += subSize + t.Draw("hx.gap", 3)
+		}
+	}
+	data = append(data, make([]byte, 4*nsub*subSize)...)
+	if t.Bool("hx.short", 1, 4) {
+		data = data[:16+len(data)/3] // declares more than it delivers
+	}
+	var zb bytes.Buffer
+	zw := zlib.NewWriter(&zb)
+	zw.Write(data)
+	zw.Close()
+	size := next + subSize + 1
+	fmt.Fprintf(&b, "3 0 obj\n<< /Type /XRef /Size %d /W [1 2 1] /Index [%s] /Root 1 0 R /Filter /FlateDecode /Length %d >>\nstream\n", size, index, zb.Len())
+	b.Write(zb.Bytes())
+	b.WriteString("\nendstream\nendobj\n")
+	fmt.Fprintf(&b, "startxref\n%d\n%%%%EOF\n", offs[3])
+	return b.Bytes(), fmt.Sprintf("hostile xref stream: %d subsections of %d entries (overlap %v)", nsub, subSize, overlap)
+}
+
 func Run(e *core.Env) {
 	t := e.T
 	var img []byte
 	var desc, password string
-	baseKind := t.Weighted("base.kind", 5, 3, 2)
-	if baseKind == 2 {
+	baseKind := t.Weighted("base.kind", 10, 6, 4, 2, 1)
+	if baseKind == 3 {
+		var ok bool
+		img, _, ok = c11.Image(t)
+		if !ok {
+			e.Skip("graph not renderable")
+			return
+		}
+		desc = "hand-serialised object graph"
+	} else if baseKind == 4 {
+		img, desc = hostileXRef(t)
+	} else if baseKind == 2 {
 		var ok bool
 		img, desc, ok = c04.Image(t)
 		if !ok {
